@@ -43,9 +43,15 @@ def _isreal(A):
     return True
 
 
-def _fresh(name, shape, real, kind=None):
+def _fresh(name, shape, real, kind=None, constrained=False):
     k = kind or ("real" if real else "cplx")
-    return P.symarray(name, shape, k)
+    a = P.symarray(name, shape, k)
+    if constrained:
+        for v in a.reshape(-1):
+            i = P.sid(v)
+            P.TAB.constrained.add(i)
+            P.TAB.constrained.add(P.TAB.partner[i])
+    return a
 
 
 def _dag(x):
@@ -97,7 +103,7 @@ def qr_stub(A, mode="reduced"):
     m, n = A.shape
     r = min(m, n)
     real = _isreal(A)
-    Q = _fresh(f"Q{k}", (m, r), real)
+    Q = _fresh(f"Q{k}", (m, r), real, constrained=True)
     R = _fresh(f"R{k}", (r, n), real)
     for i in range(r):
         for j in range(n):
@@ -109,6 +115,10 @@ def qr_stub(A, mode="reduced"):
             R[i, i] = P.positive(f"R{k}d{i}")
     _add_eq(f"qr{k}:QhQ-I", _dag(Q).dot(Q) - _eye(r), real)
     _add_eq(f"qr{k}:QR-A", Q.dot(R) - A, real)
+    # consequences of the contract (sound: implied by the two lines above); they lower the
+    # degree of the certificates the decision procedure has to find
+    if m == r:
+        _add_eq(f"qr{k}:QQh-I", Q.dot(_dag(Q)) - _eye(m), real)
     return Q, R
 
 
@@ -139,8 +149,8 @@ def svd_stub(A, full_matrices=True, compute_uv=True, hermitian=False, **kw):
         tot = sum((x * x.conjugate() for x in A.reshape(-1)), P.ZERO)
         P.HYP.append((f"svd{k}:sum-s2", sum((x * x for x in s), P.ZERO) - tot))
         return s
-    U = _fresh(f"U{k}", (m, r), real)
-    VH = _fresh(f"V{k}", (r, n), real)
+    U = _fresh(f"U{k}", (m, r), real, constrained=True)
+    VH = _fresh(f"V{k}", (r, n), real, constrained=True)
     S = np.empty((r, r), dtype=object)
     for i in range(r):
         for j in range(r):
@@ -185,7 +195,7 @@ def eigh_stub(A, *a, **kw):
     if c is not None:
         for i in range(n - 1):
             c.add(c.polyvar(P.sid(w[i])) <= c.polyvar(P.sid(w[i + 1])))
-    V = _fresh(f"E{k}", (n, n), real)
+    V = _fresh(f"E{k}", (n, n), real, constrained=True)
     W = np.empty((n, n), dtype=object)
     for i in range(n):
         for j in range(n):
